@@ -104,80 +104,7 @@ func c13(c *Check) {
 
 	c.Rule("C13/family-exported", "every key family that has a live writer is read by its registered exporter, which is reachable from ExportGenesis and iterates a prefix of that family (invoked with the family's literal prefix where the prefix is a parameter)", 14)
 	c.Rule("C13/family-imported", "every exported family is written back by its registered importer, reachable from InitGenesis", 14)
-	fams := map[string][]*StoreWrite{}
-	for _, w := range c.P.StoreWrites() {
-		if w.Op != "Set" {
-			continue
-		}
-		if len(c.StaticCallers(w.Fn)) == 0 && !strings.Contains(funcName(w.Fn), "RestrictChain") {
-			continue // dead writer (no in-scope caller): e.g. SetPacketRelayer
-		}
-		f := normShape(w.Full(c.P))
-		if f == "clients/⟨s⟩/⟨s⟩" && strings.HasSuffix(funcName(w.Fn), "SetAllClientMetadata") {
-			continue // the generic metadata importer itself
-		}
-		fams[f] = append(fams[f], w)
-	}
-	var names []string
-	for f := range fams {
-		names = append(names, f)
-	}
-	sort.Strings(names)
-	for _, f := range names {
-		w := fams[f][0]
-		row, ok := families[f]
-		if !ok {
-			c.Bad("C13/family-exported", "family "+f, w.Pos, fmt.Sprintf("key family %s is written by %s but has no registered exporter: state under it would be lost by an export/import round trip", f, funcName(w.Fn)))
-			continue
-		}
-		if row.derived {
-			imp := c.F(row.importer)
-			_, r := impReach[imp]
-			c.Req(r, "C13/family-imported", "family "+f+" re-derived by "+funcName(imp), imp.Pos(), "index family re-derived on import", funcName(imp)+" is not reachable from InitGenesis, so the index family "+f+" is not rebuilt on import")
-			continue
-		}
-		if row.exporter == "" {
-			c.Bad("C13/family-exported", "family "+f, w.Pos, fmt.Sprintf("key family %s (writer %s) is not exported by any reader reachable from ExportGenesis", f, funcName(w.Fn)))
-		} else {
-			exp := c.F(row.exporter)
-			_, r := expReach[exp]
-			okRead := false
-			param := false
-			for _, rd := range c.P.StoreReads() {
-				if rd.Fn != exp && !(rd.Fn.Parent() == nil && calls(c.P, exp, rd.Fn)) {
-					continue
-				}
-				n := normShape(rd.Full)
-				if strings.HasSuffix(n, "⟨s⟩") && strings.HasPrefix(f, strings.TrimSuffix(n, "⟨s⟩")) && row.via != "" {
-					param = true
-					okRead = true
-				} else if strings.HasPrefix(f, n) {
-					okRead = true
-				}
-			}
-			okVia := true
-			if param {
-				okVia = false
-				for caller := range expReach {
-					for _, cs := range c.P.CallsIn(caller) {
-						if c.P.resolveCallee(cs.Ins.Common()) != exp {
-							continue
-						}
-						for _, a := range c.P.ArgExprs(cs) {
-							if c.P.ShapeExpr(a) == row.via {
-								okVia = true
-							}
-						}
-					}
-				}
-			}
-			c.Req(r && okRead && okVia, "C13/family-exported", "family "+f, exp.Pos(), "exported by "+funcName(exp),
-				fmt.Sprintf("family %s: exporter %s reachable-from-ExportGenesis=%v, reads-a-prefix-of-the-family=%v, invoked-with-prefix-%q=%v", f, funcName(exp), r, okRead, row.via, okVia))
-		}
-		imp := c.F(row.importer)
-		_, r := impReach[imp]
-		c.Req(r, "C13/family-imported", "family "+f, imp.Pos(), "imported by "+funcName(imp), fmt.Sprintf("importer %s of family %s is not reachable from InitGenesis", funcName(imp), f))
-	}
+	names, fams := familiesRoundTrip(c, "C13/family-exported", "C13/family-imported", expReach, impReach, nil)
 	c.Extra["key_families"] = names
 
 	c.Rule("C13/reader-tokenisation", "a reader that tokenises iterator keys with an unbounded strings.Split on \"/\" must not range over a family with a binary (big-endian height) component: a 0x2f byte inside the height changes the element count / positions", 2)
@@ -742,4 +669,94 @@ func prefixVerdict(x *Exprer, v ssa.Value, seen map[ssa.Value]bool) string {
 		return prefixEndsInSeparator(x.P, x.E(t), nil)
 	}
 	return ""
+}
+
+// familiesRoundTrip: every written key family (those selected by keep; nil = all) is read by its registered exporter,
+// reachable from ExportGenesis over a prefix of the family, and written back by its importer, reachable from InitGenesis.
+func familiesRoundTrip(c *Check, ruleExp, ruleImp string, expReach, impReach map[*ssa.Function]*ssa.Function, keep func(string) bool) ([]string, map[string][]*StoreWrite) {
+	fams := map[string][]*StoreWrite{}
+	for _, w := range c.P.StoreWrites() {
+		if w.Op != "Set" {
+			continue
+		}
+		if len(c.StaticCallers(w.Fn)) == 0 && !strings.Contains(funcName(w.Fn), "RestrictChain") {
+			continue // dead writer (no in-scope caller): e.g. SetPacketRelayer
+		}
+		f := normShape(w.Full(c.P))
+		if f == "clients/⟨s⟩/⟨s⟩" && strings.HasSuffix(funcName(w.Fn), "SetAllClientMetadata") {
+			continue // the generic metadata importer itself
+		}
+		fams[f] = append(fams[f], w)
+	}
+	var names []string
+	for f := range fams {
+		names = append(names, f)
+	}
+	sort.Strings(names)
+	for _, f := range names {
+		if keep != nil && !keep(f) {
+			continue
+		}
+		w := fams[f][0]
+		row, ok := families[f]
+		if !ok {
+			c.Bad(ruleExp, "family "+f, w.Pos, fmt.Sprintf("key family %s is written by %s but has no registered exporter: state under it would be lost by an export/import round trip", f, funcName(w.Fn)))
+			continue
+		}
+		if row.derived {
+			imp := c.F(row.importer)
+			_, r := impReach[imp]
+			c.Req(r, ruleImp, "family "+f+" re-derived by "+funcName(imp), imp.Pos(), "index family re-derived on import", funcName(imp)+" is not reachable from InitGenesis, so the index family "+f+" is not rebuilt on import")
+			continue
+		}
+		if row.exporter == "" {
+			c.Bad(ruleExp, "family "+f, w.Pos, fmt.Sprintf("key family %s (writer %s) is not exported by any reader reachable from ExportGenesis", f, funcName(w.Fn)))
+		} else {
+			exp := c.F(row.exporter)
+			_, r := expReach[exp]
+			okRead := false
+			param := false
+			for _, rd := range c.P.StoreReads() {
+				if rd.Fn != exp && !(rd.Fn.Parent() == nil && calls(c.P, exp, rd.Fn)) {
+					continue
+				}
+				n := normShape(rd.Full)
+				if strings.HasSuffix(n, "⟨s⟩") && strings.HasPrefix(f, strings.TrimSuffix(n, "⟨s⟩")) && row.via != "" {
+					param = true
+					okRead = true
+				} else if strings.HasPrefix(f, n) {
+					okRead = true
+				}
+			}
+			okVia := true
+			if param {
+				okVia = false
+				for caller := range expReach {
+					for _, cs := range c.P.CallsIn(caller) {
+						if c.P.resolveCallee(cs.Ins.Common()) != exp {
+							continue
+						}
+						for _, a := range c.P.ArgExprs(cs) {
+							if c.P.ShapeExpr(a) == row.via {
+								okVia = true
+							}
+						}
+					}
+				}
+			}
+			c.Req(r && okRead && okVia, ruleExp, "family "+f, exp.Pos(), "exported by "+funcName(exp),
+				fmt.Sprintf("family %s: exporter %s reachable-from-ExportGenesis=%v, reads-a-prefix-of-the-family=%v, invoked-with-prefix-%q=%v", f, funcName(exp), r, okRead, row.via, okVia))
+		}
+		imp := c.F(row.importer)
+		_, r := impReach[imp]
+		c.Req(r, ruleImp, "family "+f, imp.Pos(), "imported by "+funcName(imp), fmt.Sprintf("importer %s of family %s is not reachable from InitGenesis", funcName(imp), f))
+	}
+	return names, fams
+}
+
+// genesisReach: the functions reachable from the modules' ExportGenesis / InitGenesis.
+func genesisReach(c *Check) (exp, imp map[*ssa.Function]*ssa.Function) {
+	exportRoots := []*ssa.Function{c.F("x/xibc.ExportGenesis"), c.F("x/aggregate.ExportGenesis"), c.F("x/rvesting/keeper.Keeper.ExportGenesis")}
+	importRoots := []*ssa.Function{c.F("x/xibc.InitGenesis"), c.F("x/aggregate.InitGenesis"), c.F("x/rvesting/keeper.Keeper.InitGenesis")}
+	return c.Reachable(exportRoots, "cha", nil), c.Reachable(importRoots, "cha", nil)
 }
